@@ -65,8 +65,8 @@ type Contract struct {
 	Tags        []string            // property ids
 	CallAsserts map[string][]Clause // callee name suffix -> assertions at each call site (arg0.. bound)
 	CallKeeps   map[string][]KeepSpec
-	Funs        map[string]string   // uninterpreted ghost functions: name -> "(Int) Int"
-	Axioms      []Clause            // assumed over the pre-state (ghost definitions; lemmas are proved separately)
+	Funs        map[string]string // uninterpreted ghost functions: name -> "(Int) Int"
+	Axioms      []Clause          // assumed over the pre-state (ghost definitions; lemmas are proved separately)
 	Lemmas      []Lemma
 	Requires    []Clause
 	Ensures     []Clause
@@ -76,19 +76,19 @@ type Contract struct {
 	NoPanic     bool
 	NoOverflow  bool
 	Terminates  bool
-	Trusted     bool             // contract assumed, body not checked (listed in evidence)
-	Functional  bool             // calls are modelled as an uninterpreted function of the argument values
-	Loops       map[int]LoopSpec // loop ordinal (by header block index order) -> spec
+	Trusted     bool              // contract assumed, body not checked (listed in evidence)
+	Functional  bool              // calls are modelled as an uninterpreted function of the argument values
+	Loops       map[int]LoopSpec  // loop ordinal (by header block index order) -> spec
 	Callbacks   map[string]string // parameter name -> ghost set name
 	GhostCalls  map[string]string // callee -> ghost set name
 	GhostArg    map[string]string // callee -> name of the recorded parameter (default: first non-receiver)
 	Orders      []OrderSpec
-	PureFns     []string          // function-typed parameters assumed pure (uninterpreted functions)
+	PureFns     []string // function-typed parameters assumed pure (uninterpreted functions)
 	Reveal      []string
 	Traverses   []Traverse
 	Resets      []Reset
 	Except      []string
-	Inline      []string         // callee name suffixes that must be inlined regardless of size
+	Inline      []string // callee name suffixes that must be inlined regardless of size
 	NoInline    []string
 	Line        int
 	File        string
@@ -115,38 +115,38 @@ type LoopSpec struct {
 }
 
 type Engine struct {
-	sc          *sortCtx
-	prog        *ssa.Program
-	decls       []string
-	declared    map[string]bool
-	hsort       map[string]string // heap name -> sort (registry of every heap touched)
-	obls        []Obligation
-	fresh       int
-	contracts   map[string]*Contract // key: fn.String()
-	preds       map[string]predDef
-	allocN      int
-	epochN      int
-	inlineDepth int
-	cellClo     map[string]*closureVal // func-typed cell (by location term) -> closure stored there
-	log         []string
-	havocs      map[string]bool // callee names havocked (for the evidence file)
-	assumedStd  map[string]bool // std functions modelled by an assumed contract
-	strLits     map[string]string
-	fnName      string
-	nOrd        map[string]int
-	tier        string
-	findings    map[string][]Finding // group -> known findings (witness split)
-	curFrame    *frame
-	paramSyms   []paramSym
-	rootPre     *State
-	heapAlias   map[string]string
-	fnIndex     map[string]*ssa.Function
-	readLog     map[string]bool   // when non-nil, heapByName records the heaps it is asked for
-	opaqueSig   map[string]string // opaque predicate -> declared uninterpreted symbol
-	sumInst     map[string]bool   // ghostsum instances whose defining axioms were emitted
+	sc           *sortCtx
+	prog         *ssa.Program
+	decls        []string
+	declared     map[string]bool
+	hsort        map[string]string // heap name -> sort (registry of every heap touched)
+	obls         []Obligation
+	fresh        int
+	contracts    map[string]*Contract // key: fn.String()
+	preds        map[string]predDef
+	allocN       int
+	epochN       int
+	inlineDepth  int
+	cellClo      map[string]*closureVal // func-typed cell (by location term) -> closure stored there
+	log          []string
+	havocs       map[string]bool // callee names havocked (for the evidence file)
+	assumedStd   map[string]bool // std functions modelled by an assumed contract
+	strLits      map[string]string
+	fnName       string
+	nOrd         map[string]int
+	tier         string
+	findings     map[string][]Finding // group -> known findings (witness split)
+	curFrame     *frame
+	paramSyms    []paramSym
+	rootPre      *State
+	heapAlias    map[string]string
+	fnIndex      map[string]*ssa.Function
+	readLog      map[string]bool   // when non-nil, heapByName records the heaps it is asked for
+	opaqueSig    map[string]string // opaque predicate -> declared uninterpreted symbol
+	sumInst      map[string]bool   // ghostsum instances whose defining axioms were emitted
 	derivedCache map[*Contract][2][]Clause
 	derivedSteps map[*Contract]map[int][]Clause
-	bitsSyms    map[string]string // float parameter term -> symbol holding its bit pattern (math.Float32bits)
+	bitsSyms     map[string]string // float parameter term -> symbol holding its bit pattern (math.Float32bits)
 }
 
 type predDef struct {
